@@ -132,7 +132,7 @@ def run(tier):
     chk = Check("C08", tier)
     rng = random.Random(common.seed())
     common.build_harness()
-    cfg = "Resolve_quick.cfg" if tier == "quick" else "Resolve_thorough.cfg"
+    cfg = "Resolve_thorough.cfg"      # the whole Scopes family in both tiers (5 s); the quick family lacks the built-in name
     r = run_tlc("ResolveMC", cfg, workers=8, timeout=1800)
     chk.add_tlc(r)
     if not r.ok:
